@@ -23,7 +23,7 @@ ASSUMPTIONS = ["nvmon.ref exact reference (piece polynomials, truncated power-se
 FLOORS = {'quick': {'curve-ders': 1500, 'surface-ders': 600, 'alt-evaluator': 400, 'above-degree': 200, 'hodograph': 150,
                     'tangent': 150, 'normal': 60, 'hook:derivatives': 100},
           'thorough': {'curve-ders': 15000, 'surface-ders': 6000, 'alt-evaluator': 4000}}
-MANDATORY_TAGS = ['tangent:int-parameter', 'curve', 'surface', 'rational', 'u:knot', 'u:knot_full', 'u:end', 'order>degree', 'eval2', 'deg1-order>=2',
+MANDATORY_TAGS = ['tangent:int-parameter', 'short-knot-range', 'curve', 'surface', 'rational', 'u:knot', 'u:knot_full', 'u:end', 'order>degree', 'eval2', 'deg1-order>=2',
                   'mixed-partial', 'unclamped', 'unnormalized']
 TECHNIQUE = ("runtime monitoring: exact-arithmetic post-condition (piece-polynomial derivatives / power-series division) on every "
              "derivatives() call, hodograph constructor and tangent/normal query of a class-enumerating seeded workload; "
@@ -199,6 +199,10 @@ def gen(rng, tier, shard, nshards):
             kw = dict(forced[i])
         else:
             kw = dict(pdim=rng.choice([1, 1, 2]), normalize=rng.random() < 0.7)
+            if rng.random() < 0.1:
+                # un-normalised knot vector on a very short (or long) range: derivatives scale with 1/range^k, nothing else changes
+                a_ = rng.choice([0.0, 5.0])
+                kw.update(normalize=False, lohi=(a_, a_ + rng.choice([2.0 ** -20, 2.0 ** -17, 2.0 ** 10])), rational=rng.random() < 0.3)
         pd = kw.pop('pdim')
         kw.setdefault('maxdeg', {1: 6, 2: 3}[pd])
         kw.setdefault('maxextra', {1: 6, 2: 4}[pd])
@@ -222,6 +226,8 @@ def check(case, ctx):
     sc = scale(S)
     interior = any(len(kv) > 2 * (p + 1) or kv[0] != kv[p] for kv, p in zip(sd['kvs'], sd['degrees']))
     ctx.nontriv(interior or (sd['rational'] and len(set(sd.get('weights', [1]))) > 1))
+    if any(abs(kv[-1] - kv[0]) < 1e-4 for kv in sd['kvs']):
+        ctx.tag('short-knot-range')
     ctx.tag('curve' if pdim == 1 else 'surface', 'rational' if sd['rational'] else 'nonrational',
             'normalized' if sd['normalize_kv'] else 'unnormalized')
     if any(c.startswith('unclamped') for c in sd['kvcls']):
